@@ -411,6 +411,35 @@ def rule_b1(ctx, F):
         ctx.bad("B1", "build_test_entry:strips-one-terminator", "build_test_entry strips the end of the input with %d pops (%d inside a loop): inputs ending in blank lines lose them on --update" % (len(pops), len(cyc)))
 
 
+def rule_w1(ctx, F):
+    """W1 (writer): both header lines are `=` repeated header_delim_len times and the divider is `-`
+    repeated divider_delim_len times — the remembered lengths, each with its own character."""
+    import rsrules
+    from rsrules import deep_text
+    fn = ctx.need_fn(F, "test::write_tests_to_buffer", "W1")
+    if not fn:
+        return
+    seen = []
+    for pt, e in fn.points():
+        for x in own_walk(e):
+            if x.get("k") == "call" and (x.get("fn") or "").endswith("str>::repeat") and len(x.get("a", [])) == 2:
+                lit = deep_text(fn, x["a"][0], user=True)
+                cnt = deep_text(fn, x["a"][1], user=True)
+                ch = "=" if '"="' in lit else "-" if '"-"' in lit else lit[:10]
+                fld = "header_delim_len" if cnt.endswith(".header_delim_len") else "divider_delim_len" if cnt.endswith(".divider_delim_len") else cnt[-30:]
+                seen.append((ch, fld))
+    want = sorted([("=", "header_delim_len"), ("=", "header_delim_len"), ("-", "divider_delim_len")])
+    if sorted(seen) == want:
+        ctx.ok("W1", "write_tests_to_buffer:delimiters-with-remembered-lengths", "`=` × header_delim_len twice, `-` × divider_delim_len once")
+    else:
+        ctx.bad("W1", "write_tests_to_buffer:delimiters-with-remembered-lengths", "the writer's delimiter lines are %s, expected %s: delimiter lengths are not preserved on --update" % (sorted(seen), want))
+    tr = [pt for pt, e in fn.points() for x in own_walk(e) if x.get("k") == "call" and (x.get("fn") or "").endswith("str>::trim") and deep_text(fn, x["a"][0], user=True).rstrip(")").endswith(".output")]
+    if tr:
+        ctx.ok("W1", "write_tests_to_buffer:output-trimmed", "the expected output is written trimmed")
+    else:
+        ctx.bad("W1", "write_tests_to_buffer:output-trimmed", "the writer no longer writes `output.trim()`; a second --update would change the file again")
+
+
 def rule_f4(ctx, F):
     """The field stripper recognises every plain-identifier field name (ASCII letters, digits and
     `_` — the alphabet the generator's own identifier sanitiser passes through unchanged).  A
@@ -468,6 +497,7 @@ def run(ctx):
     rule_f4(ctx, F)
     rule_f5(ctx, F)
     rule_b1(ctx, F)
+    rule_w1(ctx, F)
     return ctx.finish(
         "Field-flow, taint and path-counting rules over rustc MIR of crates/cli/src/test.rs: each TestCorrection is built from the entry's own name/input/attributes/delimiter lengths; "
         "the writer reads every field; with --update each Example path to Ok(true) records exactly one correction; the recognised delimiter suffix must reach the entry. "
